@@ -238,7 +238,9 @@ func (s *ServerSession) doMsg(stream *Stream) error {
 		fallthrough
 	case base.RtmpTypeIdVideo:
 		if s.sessionStat.BaseType() != base.SessionBaseTypePubStr {
+			// 注意，非pub类型的session，没有设置avObserver，不能往下回调
 			err = nazaerrors.Wrap(base.ErrRtmpUnexpectedMsg)
+			break
 		}
 		s.avObserver.OnReadRtmpAvMsg(stream.toAvMsg())
 	default:
